@@ -111,6 +111,7 @@ type c04Params struct {
 	// server, and the events fire right after the evAfter-th request reached any server
 	inflight bool
 	evAfter  int
+	wire     bool // tier W: real region clients over virtual sockets
 }
 
 type c04Obs struct {
@@ -132,6 +133,9 @@ func c04Body(p c04Params, out *c04Obs) func() {
 		}
 		cl.AddTable("t2", nil, []string{"rs2:1"})
 		w := newWorld(cl)
+		if p.wire {
+			w = newWorldW(cl, gohbase.FlushInterval(0), gohbase.RpcQueueSize(1))
+		}
 		out.w = w
 		n := len(p.keys)
 		out.errs = make([]error, n)
@@ -241,6 +245,10 @@ func c04Check(p c04Params, out *c04Obs) func(res *vrt.Result) *explore.Finding {
 		cl := out.w.cl
 		for i, k := range p.keys {
 			err := out.errs[i]
+			ident := any(out.calls[i])
+			if p.wire {
+				ident = k // on the wire a call is identified by its row
+			}
 			fatalHere := (p.fatal == "app" && i == 0) || p.fatal == "droptable"
 			if p.fatal == "app" && i != 0 && regionOf(cl, "t", k) == regionOf(cl, "t", p.keys[0]) {
 				// the scripted application exception hits whichever request reaches that region first
@@ -269,7 +277,7 @@ func c04Check(p c04Params, out *c04Obs) func(res *vrt.Result) *explore.Finding {
 					if errClass(err) != "other(*errors.errorString)" && !strings.HasPrefix(errClass(err), "other") {
 						return &explore.Finding{Class: "application-error-reclassified", Msg: fmt.Sprintf("key %q: %v (%T)\n%s", k, err, err, desc())}
 					}
-					if n := cl.ExecCount(out.calls[i]); n != 0 {
+					if n := cl.ExecCount(ident); n != 0 && !p.wire {
 						return &explore.Finding{Class: "non-retryable-error-was-retried", Msg: fmt.Sprintf("key %q executed %d times after a fatal error\n%s", k, n, desc())}
 					}
 				}
@@ -283,7 +291,7 @@ func c04Check(p c04Params, out *c04Obs) func(res *vrt.Result) *explore.Finding {
 			}
 			// executed exactly on a server that hosted the owning region at that time (the executor
 			// refuses anything else), and at least once
-			if cl.ExecCount(out.calls[i]) < 1 {
+			if cl.ExecCount(ident) < 1 {
 				return &explore.Finding{Class: "success-without-execution", Msg: fmt.Sprintf("key %q\n%s", k, desc())}
 			}
 		}
@@ -304,7 +312,7 @@ func c04Units(thorough bool) []*explore.Unit {
 			names = append(names, evs[e].name)
 		}
 		units = append(units, &explore.Unit{
-			Name: fmt.Sprintf("events=%v|warm=%v|when=%s|fatal=%s|keys=%v|coloc=%v|inflight=%v@%d", names, p.warm, p.when, p.fatal, p.keys, p.coloc, p.inflight, p.evAfter), Bound: bound,
+			Name: fmt.Sprintf("events=%v|warm=%v|when=%s|fatal=%s|keys=%v|coloc=%v|inflight=%v@%d|wire=%v", names, p.warm, p.when, p.fatal, p.keys, p.coloc, p.inflight, p.evAfter, p.wire), Bound: bound,
 			Opt: vrt.Options{MaxSteps: 60000}, Body: c04Body(p, out), Check: c04Check(p, out),
 			Sig: func() string {
 				var sb strings.Builder
@@ -347,6 +355,20 @@ func c04Units(thorough bool) []*explore.Unit {
 				add(c04Params{events: []int{i}, warm: warm, when: "before", keys: []string{"a", "x"}, coloc: true}, 1)
 			}
 		}
+	}
+	// the same single events end to end on the wire (real region clients, virtual sockets)
+	for i := range evs {
+		for _, coloc := range []bool{false, true} {
+			add(c04Params{events: []int{i}, warm: true, when: "before", keys: []string{"a", "x"}, coloc: coloc, wire: true}, 0)
+			b := 1
+			if thorough {
+				b = 2
+			}
+			add(c04Params{events: []int{i}, warm: true, when: "concurrent", keys: []string{"a", "x"}, coloc: coloc, wire: true}, b)
+		}
+	}
+	for _, fatal := range []string{"app", "droptable"} {
+		add(c04Params{warm: true, when: "before", fatal: fatal, keys: []string{"a", "x"}, wire: true}, 0)
 	}
 	// a request in flight on a shared connection while the other region is being established
 	for i, e := range evs {
